@@ -52,6 +52,12 @@ def process_result(
     if result.outputs and isinstance(result.outputs, dict):
         stage.outputs.update(result.outputs)
 
+    if result.status == WorkflowStatus.REDIRECT:
+        # Record which task the CompleteTask(REDIRECT) pushed below belongs to.
+        # JumpToStage clears the marker when it re-arms the stage, so a stale
+        # completion that the jump overtook cannot hit the next iteration.
+        stage.context["_pending_redirect_task"] = task_model.id
+
     # Handle based on status - use atomic transactions
     if result.status == WorkflowStatus.RUNNING:
         _handle_running(stage, task_model, message, txn_helper, get_backoff_fn)
